@@ -250,18 +250,43 @@ pub fn read(bytes: &[u8]) -> Result<Doc, String> {
         } else if p.starts(b"<?") {
             let body = p.pi()?;
             if body.starts_with(b"xml") && body.len() > 3 && is_xml_ws(body[3]) {
-                // pseudo-attribute standalone
-                if let Some(k) = (0..body.len()).find(|k| body[*k..].starts_with(b"standalone")) {
-                    let rest = &body[k + 10..];
-                    let rest = trim_xml_ws(rest);
-                    if rest.first() == Some(&b'=') {
-                        let v = trim_xml_ws(&rest[1..]);
-                        if v.len() >= 2 {
-                            let q = v[0];
-                            if let Some(e) = v[1..].iter().position(|c| *c == q) {
-                                standalone = Some(v[1..1 + e].to_vec());
+                // XMLDecl pseudo-attributes: S Name S? '=' S? quoted
+                let mut k = 3;
+                loop {
+                    while k < body.len() && is_xml_ws(body[k]) {
+                        k += 1;
+                    }
+                    let ns = k;
+                    while k < body.len() && !is_xml_ws(body[k]) && body[k] != b'=' {
+                        k += 1;
+                    }
+                    if k == ns {
+                        break;
+                    }
+                    let name = &body[ns..k];
+                    while k < body.len() && is_xml_ws(body[k]) {
+                        k += 1;
+                    }
+                    if k >= body.len() || body[k] != b'=' {
+                        break;
+                    }
+                    k += 1;
+                    while k < body.len() && is_xml_ws(body[k]) {
+                        k += 1;
+                    }
+                    if k >= body.len() || (body[k] != b'"' && body[k] != b'\'') {
+                        break;
+                    }
+                    let q = body[k];
+                    let vs = k + 1;
+                    match body[vs..].iter().position(|c| *c == q) {
+                        Some(e) => {
+                            if name == b"standalone" {
+                                standalone = Some(body[vs..vs + e].to_vec());
                             }
+                            k = vs + e + 1;
                         }
+                        None => break,
                     }
                 }
             }
